@@ -4,11 +4,8 @@ PROPS = {}
 
 # Properties not (yet) claimed. Kept current by hand; gen_manifest.py copies it.
 NOT_APPLICABLE = {
-    'C02': 'check not built yet in this round (planned, see DESIGN.md section 5)',
-    'C03': 'check not built yet in this round (planned, see DESIGN.md section 5)',
     'C14': 'check not built yet in this round (planned, see DESIGN.md section 5)',
     'C15': 'check not built yet in this round (planned, see DESIGN.md section 5)',
-    'C18': 'check not built yet in this round (planned, see DESIGN.md section 5)',
     'C19': 'check not built yet in this round (planned, see DESIGN.md section 5)',
 }
 
@@ -272,4 +269,59 @@ PROPS['C05'] = dict(
     require_counters={'streams/legacy': 50, 'streams/frozen-current-encoder': 1400, 'legacy_anchor_checked': 24, 'version_pairs_rejected': 200000, 'path/version/1.1': 1, 'path/prediction/method4-*': 10,
                       'path/prediction/method5-*': 10, 'path/prediction/method6-*': 10, 'path/kd_level/6': 10, 'path/edgebreaker_traversal_coder/2': 50},
     assumptions=['the recorded digests describe what the streams decoded to at freeze time'],
+)
+
+_HOSTILE_RULE = ('cases 0..N-1 enumerate, for every short base stream (quick: 25 legacy + frozen-corpus streams <= 420 bytes, keyframe / metadata / symbol blocks; thorough: <= 3000 bytes), every truncation length, '
+                 'every offset x 8 byte patterns (bit0/bit7 flip, 00, FF, +1, -1, 7F, 80), x 6 32-bit patterns, x 4 varint patterns (max 5-byte, max 10-byte, over-long, non-canonical); the remaining cases draw: '
+                 'semantic tamper (re-encode one of the small geometries with one traversal symbol / rANS bit / direct bit / symbol / varint / bit-field value replaced through the DRACO_VERIF hook), random multi-site '
+                 'corruption (2-8 sites), header rewrites, splices (prefix A + suffix B, duplicated / dropped ranges). Entry points: type-directed decode, DecodeMeshFromBuffer, DecodePointCloudFromBuffer, '
+                 'DecodeBufferToGeometry(Mesh*/PointCloud*, also the wrong type), random skip-attribute-transform subsets, KeyframeAnimationDecoder, MetadataDecoder, DecodeSymbols. ')
+
+PROPS['C02'] = dict(
+    title='Decoding arbitrary bytes is memory-safe, UB-free and returns a Status',
+    technique='sanitizers (ASan+UBSan, fatal) + guard pages / read-only input / input hash + allocation monitor + CPU watchdog over a systematic and semantic corruption engine',
+    level='fault_enumeration',
+    level_text=('Every case decodes one corrupted input in a forked worker under ASan+UBSan (exact-size heap input) and, in the plain variant, with the input flush against PROT_NONE guard pages and mapped read-only; '
+                'the monitors are the sanitizers, the worker exit status (signals, aborts, libstdc++ assertions, uncaught exceptions), an input hash, the CPU-time watchdog with one re-run, and an allocation monitor '
+                'that turns over-cap requests into bad_alloc and accepts them only when the request is justified by an element count the stream declared (DRACO_VERIF declared-count events).'),
+    level_note=('Enumerates single-site faults completely for the short bases listed in the evidence and samples the rest; a clean sanitizer run is not memory safety (intra-object and far out-of-bounds accesses escape). '
+                'Decoder-side code has no UBSan suppressions.'),
+    rule=_HOSTILE_RULE + 'Non-trivial = the decoder got past the 11-byte header; distinct = hash of (corrupted bytes, entry point, skip set).',
+    runs=[dict(variant='asan', harness='c02_decode_hostile', cases=dict(quick=246891 + 90000, thorough=8942321 + 2000000), cpu_budget=20),
+          dict(variant='plain', harness='c02_decode_hostile', tag='guard-pages', cases=dict(quick=246891 + 90000, thorough=8942321 + 2000000), cpu_budget=10)],
+    min_nontrivial=100000,
+    require_counters={'mutation/truncate': 2 * 6000, 'mutation/byte': 2 * 50000, 'mutation/u32': 2 * 38000, 'mutation/varint': 2 * 25000, 'mutation/tamper-site7': 2 * 2000, 'mutation/tamper-site8': 2 * 800, 'mutation/tamper-site2': 2 * 2000,
+                      'mutation/tamper-site5': 2 * 4000, 'mutation/multi-site': 2 * 10000, 'mutation/splice': 2 * 5000, 'mutation/header': 2 * 5000, 'kind/keyframes': 2 * 8000, 'kind/metadata': 2 * 2500, 'kind/symbols': 2 * 4000,
+                      'accepted_corrupted_streams': 2 * 50000, 'entry/1': 2 * 8000, 'entry/4': 2 * 8000, 'with_skip_transform': 2 * 20000},
+    assumptions=['harness allocation cap: 256 MiB per request, 1 GiB live'],
+)
+
+PROPS['C03'] = dict(
+    title='A successfully decoded geometry is structurally valid',
+    technique='runtime monitoring: structural validator + read-everything pass under ASan on every decode that returns OK over the corruption engine (valid, byte-corrupted and semantically tampered streams)',
+    level='fault_enumeration',
+    level_text=('Whenever a decode of a (corrupted) input returns OK the geometry is handed to an independent validator before it is destroyed: face indices < num_points, explicit point maps of size num_points mapping '
+                'into the value array, buffers large enough for size x stride, stride >= components x type size, valid data type/component count; then every face and every point\'s value in every attribute is read '
+                'through GetMappedValue / GetValue / ConvertValue and the attached transform parameters are read, under ASan.'),
+    level_note='Same input space as C02; evidence reports how many corrupted streams were accepted (these are the interesting cases).',
+    rule=_HOSTILE_RULE + 'Non-trivial = decode returned OK and the validator ran; distinct = hash of (bytes, entry point, skip set).',
+    runs=[dict(variant='asan', harness='c02_decode_hostile', prop='C03', cases=dict(quick=246891 + 90000, thorough=8942321 + 2000000), cpu_budget=20)],
+    min_nontrivial=20000,
+    require_counters={'accepted_corrupted_streams': 50000, 'decode_ok/geometry/tamper': 5000, 'decode_ok/geometry/bytes': 40000, 'decode_ok/keyframes/bytes': 4000},
+    assumptions=[],
+)
+
+PROPS['C18'] = dict(
+    title='Decoder memory is bounded by stream length and declared element counts',
+    technique='runtime monitoring: allocation monitor (every operator new request, live-bytes peak) checked against B = 64 MiB + 2048*len(input) + 256*E(declared counts) over the corruption engine',
+    level='fault_enumeration',
+    level_text=('Every decode of a corrupted input runs with all operator new requests recorded; the largest single request and the live-bytes peak must stay below B = C0 + K_in*len + K_el*E, where E sums the element '
+                'counts the stream declared (points, faces, vertices, symbols, split symbols, points x components per attribute; from DRACO_VERIF events). A violation is keyed by the first Draco frame of the '
+                'largest request, so distinct missing guards are distinct findings.'),
+    level_note='C0 = 64 MiB covers the fixed-size rANS tables (independent of input; largest peak observed at calibration: 18 MB for a 190-byte corrupted stream), K_in = 2048, K_el = 256 B; the evidence reports the largest observed request/bound and peak/bound ratios (calibration: well below 1 on valid streams).',
+    rule=_HOSTILE_RULE + 'Non-trivial = decoder got past the header; distinct = hash of (bytes, entry point, skip set).',
+    runs=[dict(variant='plain', harness='c02_decode_hostile', prop='C18', cases=dict(quick=246891 + 90000, thorough=8942321 + 2000000), cpu_budget=10)],
+    min_nontrivial=100000,
+    require_counters={'mutation/u32': 38000, 'mutation/varint': 25000, 'mutation/tamper-site1': 1000, 'mutation/multi-site': 10000},
+    assumptions=['harness allocation cap: 256 MiB per request, 1 GiB live (larger requests are recorded with their size, then refused)'],
 )
